@@ -122,4 +122,16 @@ PROPS = {
             {"name": "mix", "pkg": "c03", "run": "^TestC03Mix$", "race": True, "shards": {"quick": 6, "thorough": 16}, "timeout": {"quick": 600, "thorough": 3000}},
         ],
     },
+    "C10": {
+        "level": "exploration",
+        "level_text": "Held (apart from the recorded findings) on K PRNG operation sequences per store configuration - memory, memory with the streamer hidden, SQLite on a file / in memory / with stream batch 1,2,3,5,1000, durable-streams against the reference server in-process with default and 400-byte chunks - run in lockstep with a reference log: every Append offset compared with its predecessor as strings, every Read / ReadStream result compared event by event (type, data bytes or JSON value, timestamp instant) with the reference slice for that resume point, every offset value ever handed out (append result, next, event offset) tracked with the position it denotes so that chains of reads with arbitrary limits and resume points must neither skip nor repeat, Save/LoadOffset over several ids, and a second store of the same kind run alongside for isolation.",
+        "level_note": "Offsets are treated as opaque: only string comparison of consecutive Append results and position bookkeeping. Data equality is byte equality for memory/SQLite and JSON-value equality (numbers textual) for durable-streams, whose client re-encodes. Invalid UTF-8 type strings, OffsetNewest as a read origin, number literals the reference server rejects (1e400) and saving the empty offset are outside the generated domain. Durable-streams cases alternate between a strict mode (no limit-truncating reads, no resumption from event offsets) in which any deviation is a new violation, and an arbitrary mode in which deviations after a truncating read carry the recorded finding's signature.",
+        "technique": "runtime monitoring: reference-model (append-only log with offset-position bookkeeping) run in lockstep with each bundled store",
+        "design_ref": "DESIGN.md section 5 C10, section 4.4",
+        "rule": "PRNG sequences of Append / Read(o,n) / chained reads / ReadStream / SaveOffset / LoadOffset over two stores of one kind; events with arbitrary valid-UTF-8 type strings, arbitrary JSON documents and timestamps in any zone; distinct = (store kind, chain-of-3-limits seen, event-offset resume seen, non-UTC zone seen, log length/10); non-trivial = a chain of >=3 reads with >=2 different limits, or a resume from an event offset, or a non-UTC timestamp",
+        "assumptions": ["the reference durable-streams server (ahimsalabs memorystorage) stands in for a real server"],
+        "parts": [
+            {"name": "lockstep", "pkg": "c10", "run": "^TestC10$", "shards": {"quick": 4, "thorough": 16}, "timeout": {"quick": 400, "thorough": 3000}},
+        ],
+    },
 }
